@@ -94,6 +94,15 @@ def be8 (r : Nat) : Bytes := be64 r
 def idxKey (k : Bytes) : Bytes := encode k 0
 def compactKeyOf (c : Cfg) : Bytes := c.pfx ++ [47] ++ compactKeyName
 
+/-- `getEventsPrefix(prefix)`: `<prefix>/events/` (shape regenerated as `Generated.eventsPrefixShape`). -/
+def eventsPrefixOf (c : Cfg) : Bytes :=
+  if eventsPrefixShape == "prefix+events" then c.pfx ++ eventsPattern else eventsPattern
+
+/-- Is a create of `key` given the events TTL? (`backend.create`, regenerated `Generated.eventsMatchTxn`) -/
+def createHasTTL (c : Cfg) (key : Bytes) : Bool :=
+  if eventsMatchTxn == "HasPrefix:getEventsPrefix" then hasPrefix key (eventsPrefixOf c)
+  else containsSub key eventsPattern
+
 /-! ### engine access with faults -/
 
 inductive CommitRes where
@@ -533,7 +542,8 @@ def compactRange (c : Cfg) (s : BState) (start stop : Bytes) (rev : Nat)
       match decodeRecs (iterate c.q store p.1 p.2 0) with
       | none => (acc.1, true)
       | some recs =>
-        let acts := workerActs { R := rev, compact := true, timeout := t, supportTTL := c.q.supportTTL } recs
+        let acts := workerActs { R := rev, compact := true, timeout := t, supportTTL := c.q.supportTTL,
+                                 eventsPfx := eventsPrefixOf c } recs
         (runDeletes mask { acc.1 with lastFailed := [] } acts, acc.2 || hasPanic acts)) init
     ({ s with marks := marks, store := cs.store }, cs.calls, pan)
 
